@@ -461,6 +461,25 @@ def run_connection(case, ctx, rng):
     ctx.check("lagrange-vs-kkt", relerr(u, ref), 1e-7, key + "/vs-kkt")
     ctx.check("constraint-values", relerr(u[sh.known], sh.dir_sum[sh.known], scale=1.0), 1e-10, key + "/constraint-values")
     ctx.finite("lagrange-finite", u, key + "/finite")
+    # the connection is released on the same simulation object: Bc_Init, then each member is held on its own (both ends of the
+    # frame clamped) and the two corner nodes are loaded differently; no multiplier is left in the system
+    with ctx.monitored("no-exception", key + "/released/raised"):
+        with quiet():
+            simu.Bc_Init()
+            sh2 = Shadow(simu)
+            sh2.dirichlet(clamp, [0.0] * sh2.dof_n, sh2.unknowns)
+            sh2.dirichlet(tip, [0.0] * sh2.dof_n, sh2.unknowns)
+            simu.add_neumann(corner[:1], [1.0], ["y"])
+            simu.add_neumann(corner[1:], [-0.5], ["x"])
+            u2 = simu.Solve()
+            K2, _, _, F2 = simu.Get_K_C_M_F()
+            fN2 = simu.Bc_vector_Neumann()
+    ctx.require("released-system-size", K2.shape == (n, n) and u2.size == n, key + "/released/size", K=list(K2.shape), u=int(u2.size), n=n)
+    if K2.shape == (n, n) and u2.size == n:
+        ref2 = _kkt_reference(K2.toarray(), F2.toarray().ravel() + fN2, list(sh2.known), sh2.dir_sum[sh2.known], [])
+        ctx.check("lagrange-vs-kkt", relerr(u2, ref2), 1e-7, key + "/released/vs-kkt")
+        U2 = u2.reshape(-1, sh2.dof_n)
+        ctx.require("released-members-independent", float(np.abs(U2[corner[0]] - U2[corner[1]]).max()) > 1e-9 * np.abs(u2).max(), key + "/released/independent")
     ctx.describe(f"connection/{bdim}D/{et}/{theory}/{conn}", np.abs(u).max() > 0, bdim=bdim, theory=theory, conn=conn, n_lagrange=len(lag_rows),
                  unknowns_tied=sorted({bc_.unknowns[0] for bc_ in lag}))
 
